@@ -69,6 +69,8 @@ CONSTS = [
     ("SUBSTREAM_READ_BUFFER_INIT_OTHER", "src/substream/mod.rs",
      r"std::cmp::max\(payload_size,\s*\d+\),\s*_\s*=>\s*(\d+),"),
     ("SUBSTREAM_SIZE_VEC_LEN", "src/substream/mod.rs", r"size_vec:\s*BytesMut::zeroed\((\d+)\)"),
+    ("YAMUX_DEFAULT_CREDIT", "src/yamux/mod.rs", const("DEFAULT_CREDIT")),
+    ("WEBRTC_MAX_INFLIGHT_MESSAGES", "src/transport/webrtc/substream.rs", const("MAX_INFLIGHT_MESSAGES")),
     # C10 (scores are i32; the two negative ones are read as magnitudes: `-100i32` -> 100, `i32::MIN` -> 2^31)
     ("MAX_ADDRESSES", ADDR, const("MAX_ADDRESSES")),
     ("SCORE_CONNECTION_ESTABLISHED", ADDR, const("CONNECTION_ESTABLISHED")),
